@@ -146,6 +146,7 @@ impl Kernel {
             self.gt.short_mem_reads += 1;
         }
         self.gt.strategies_used[1] += 1;
+        self.account_transfer(n as u64);
         Ok(self.read_mem_vec(off, n))
     }
 
@@ -775,6 +776,7 @@ impl Kernel {
                 self.gt.short_mem_reads += 1;
             }
             self.gt.strategies_used[0] += 1;
+            self.account_transfer(n as u64);
             Ok(self.read_mem_vec(addr, n))
         })();
         match &r {
